@@ -3,6 +3,8 @@
    The Facts are the decidable obligations on what gen/facts.py extracted from the sources on this run. *)
 From Coq Require Import List NArith ZArith.
 From SudachiVerif Require Import Model.Codec Proofs.CodecProofs.
+From SudachiVerif Require Import Model.GuardLang Model.CodecConn Proofs.CodecConnProofs Proofs.CodecLexProofs.
+From SudachiVerif Require Import Model.CodecResolve Proofs.CodecResolveProofs Proofs.CodecResolveLexProofs.
 From SudachiVerif Require Generated.FieldOrder.
 Open Scope N_scope.
 
@@ -67,3 +69,87 @@ Theorem C05_wordinfo_roundtrip :
   exists i, get_word_info lx true wid ALL = Some i /\ loaded_as e df i.
 Proof. exact (wordinfo_roundtrip C05_writer_order C05_reader_order C05_len_thresholds). Qed.
 Print Assumptions C05_wordinfo_roundtrip.
+
+(* the words section: for every lexicon the writer lays out at any position of a file below 4 GiB, the reader
+   (Lexicon::parse / WordParams / WordInfos: count, params array, offset table, &bytes[offsets[k]..]) finds for EVERY
+   entry k its own word info at offsets[k], its params at 6k, and reading it through get_word_info and the public
+   accessors gives the declared fields; dictionary-form references lead to the referenced entry of the same lexicon *)
+Theorem C05_lexicon_roundtrip :
+  forall prefix es sec,
+  write_words_section (N.of_nat (List.length prefix)) es = Some sec ->
+  N.of_nat (List.length (prefix ++ sec)) < 4294967296 ->
+  lexicon_wf es ->
+  file_count (prefix ++ sec) (N.of_nat (List.length prefix)) = N.of_nat (List.length es) /\
+  forall k e, nth_error es k = Some e ->
+    (exists i, get_word_info (lexicon_of_file (prefix ++ sec) (N.of_nat (List.length prefix))) true (N.of_nat k) ALL = Some i
+               /\ loaded_as e (declared_dicform es k e) i)
+    /\ file_params (prefix ++ sec) (N.of_nat (List.length prefix)) (N.of_nat k) = Some (e_left e, e_right e, e_cost e).
+Proof. exact (lexicon_roundtrip C05_writer_order C05_reader_order C05_len_thresholds). Qed.
+Print Assumptions C05_lexicon_roundtrip.
+
+(* connection matrix.  Decidable obligation on the facts regenerated from dic/build/conn.rs and dic/connect.rs:
+   write_elem's guards confine left to [0, num_left) and right to [0, num_right); write_elem's index formula is
+   right * num_left + left (up to commutation); ConnectionMatrix::index is THE SAME formula.  A stride changed in
+   only one of the two functions makes this false. *)
+Fact C05_conn_formulas_agree : conn_facts_ok = true.
+Proof. vm_compute. reflexivity. Qed.
+
+(* for every matrix text (any shape, lines in any order, repeated or missing cells) that ConnBuffer accepts, the
+   compiled section read back by Grammar::parse + ConnectionMatrix::cost gives, for every l < num_left and
+   r < num_right, the cost the text declares for (l, r): the last line naming the pair, 0 if none does *)
+Theorem C05_matrix_roundtrip :
+  forall nl nr ls m l r rest,
+  (nl < 32768)%Z -> (nr < 32768)%Z -> forallb cline_ok ls = true ->
+  conn_compile nl nr ls = Some m ->
+  (0 <= l < nl)%Z -> (0 <= r < nr)%Z ->
+  section_cost (conn_section nl nr m ++ rest) l r = Some (declared ls l r).
+Proof. exact (matrix_roundtrip C05_conn_formulas_agree). Qed.
+Print Assumptions C05_matrix_roundtrip.
+
+(* inline split references `surface,pos,reading` (RawDictResolver / BinDictResolver / ChainedResolver): a resolved
+   reference is the FIRST entry of the lexicon being compiled whose index form, POS and reading (None when equal to the
+   surface) are the ones written; only if the own lexicon has none, the first such word of the system dictionary *)
+Theorem C05_resolve_sound :
+  forall own_dic own sys s p rd w,
+  resolve_inline own_dic own sys s p rd = Some w ->
+  (exists i, w = own_dic * DIC + N.of_nat i /\ first_match own i s p rd)
+  \/ ((forall k, In k own -> ~ key_is k s p rd) /\ exists i, w = N.of_nat i /\ first_match sys i s p rd).
+Proof. exact resolve_inline_sound. Qed.
+Print Assumptions C05_resolve_sound.
+
+(* ... and resolution fails (the build stops with InvalidSplitWordReference) exactly when no entry of either has them *)
+Theorem C05_resolve_complete :
+  forall own_dic own sys s p rd,
+  resolve_inline own_dic own sys s p rd = None <-> forall k, In k (own ++ sys) -> ~ key_is k s p rd.
+Proof. exact resolve_inline_complete. Qed.
+Print Assumptions C05_resolve_complete.
+
+(* the keys BinDictResolver derives from a LOADED system dictionary (get_word_info_subset with SURFACE | POS_ID |
+   READING_FORM on the compiled file) are the keys of the entries that dictionary was compiled from *)
+Theorem C05_resolver_key_of_loaded :
+  forall prefix es sec,
+  write_words_section (N.of_nat (List.length prefix)) es = Some sec ->
+  N.of_nat (List.length (prefix ++ sec)) < 4294967296 ->
+  lexicon_wf es ->
+  forall k e, nth_error es k = Some e ->
+  exists i, get_word_info (lexicon_of_file (prefix ++ sec) (N.of_nat (List.length prefix))) true (N.of_nat k) RESOLVER_SUBSET = Some i /\
+            bin_key (as_text (i F_surface)) (as_num (i F_pos)) (as_text (i F_reading)) = sys_key e.
+Proof. exact (resolver_key_of_loaded C05_writer_order C05_reader_order C05_len_thresholds). Qed.
+Print Assumptions C05_resolver_key_of_loaded.
+
+(* "split units ... resolved to the intended entries", end to end for a system lexicon: rows with their split columns
+   as written -> resolution -> words section -> file -> reader and accessors: every unit read back for row i is the
+   written word id, or, for an inline reference, the id of the first row with that index form, POS and reading *)
+Theorem C05_inline_reference_roundtrip :
+  forall rows es prefix sec,
+  resolve_rows false rows nil = Some es ->
+  write_words_section (N.of_nat (List.length prefix)) es = Some sec ->
+  N.of_nat (List.length (prefix ++ sec)) < 4294967296 ->
+  lexicon_wf es ->
+  forall i r, nth_error rows i = Some r ->
+  exists info a b,
+    get_word_info (lexicon_of_file (prefix ++ sec) (N.of_nat (List.length prefix))) true (N.of_nat i) ALL = Some info /\
+    accessor A_a info = VArr a /\ accessor A_b info = VArr b /\
+    Forall2 (unit_target rows) (r_a r) a /\ Forall2 (unit_target rows) (r_b r) b.
+Proof. exact (inline_reference_roundtrip C05_writer_order C05_reader_order C05_len_thresholds). Qed.
+Print Assumptions C05_inline_reference_roundtrip.
